@@ -197,7 +197,12 @@ theorem c15_x_retention_and_cache :
 /-- `Active.Replay`: the cancellation branch of its loop returns at once; `truncateTail` is reached only after the loop
 ended on EOF -/
 theorem c15_x_replay_cancel :
-    replayCancelBody = ["return ctx.Err()"] ∧ replayAfterLoop.take 2 = ["wg.Wait", "f.truncateTail"] := by decide
+    replayCancelBody = ["return ctx.Err()"] ∧ replayAfterLoop.take 2 = ["wg.Wait", "f.truncateTail"] ∧
+      -- Replay takes `io.EOF` with a non-zero size for a torn tail and truncates there: `ReadDocBlock` has no other way
+      -- to report EOF than the file really ending (no size limit on a block) - oracle: life history with a 20 MB block
+      readDocBlockStmts = ["l, err := r.getDocBlockLen(offset)", "if err != nil { return nil, 0, err }",
+        "buf := make([]byte, l)", "n, err := r.limiter.ReadAt(r.file, buf, offset)", "return buf, uint64(n), err"] := by
+  decide
 
 /-! ## Non-vacuity -/
 
